@@ -14,6 +14,7 @@ import Wencry.Model.File
 import Wencry.Model.Pipe
 import Wencry.Model.Cli
 import Wencry.Model.Getopt
+import Wencry.Model.Dialog
 import Wencry.Spec.AES
 import Wencry.Spec.Modes
 import Wencry.Spec.Hash
@@ -194,6 +195,10 @@ def handle (ws : List String) : String :=
   | "pipe" :: rest => Pipe.driverPipe rest
   | "cli" :: rest => Cli.driverCli rest
   | "argv" :: rest => Getopt.driverArgv rest
+  | ["dlg", inp, f1, f2] =>
+    match unhex? inp, unhex? f1, unhex? f2 with
+    | some inp, some f1, some f2 => Dialog.showParams (Dialog.dialogue (fun p => p == f1 || p == f2) inp)
+    | _, _, _ => "bad-op"
   | _ => "bad-op"
 
 partial def loop (h : IO.FS.Stream) (out : IO.FS.Stream) : IO Unit := do
